@@ -678,11 +678,16 @@ class VM:
             w, sg = INT_TYPES[m.group(1)]
             val = (-(1 << (w - 1)) if sg else 0) if m.group(2) == 'MIN' else ((1 << (w - 1)) - 1 if sg else (1 << w) - 1)
             return mk_int(val, m.group(1))
+        consts = getattr(self.prog, 'consts', {})
+        if c in consts:
+            return self.eval_promoted(c)          # a module-level constant with a body of its own
+        if re.search(r'::[A-Z][A-Z0-9_]*$', c):
+            hit = [k for k in consts if c.endswith('::' + k) or c == k]
+            if len(hit) == 1:
+                return self.eval_promoted(hit[0])
         m = re.match(r'(\w[\w:<>, ]*)::(\w+)$', c)
         if m:
             return Enum(m.group(1).split('::')[-1], m.group(2))
-        if c in getattr(self.prog, 'consts', {}):
-            return self.eval_promoted(c)          # a module-level constant with a body of its own
         pm = re.search(r'::(promoted\[\d+\]|[A-Z][A-Z0-9_]*)$', c)
         if pm and fr is not None:
             name = re.sub(r'@@\d+$', '', fr.func.name) + '::' + pm.group(1)
